@@ -240,6 +240,7 @@ func (vlog *valueLog) rewrite(f *logFile) error {
 			// Remove only the bitValuePointer and transaction markers. We
 			// should keep the other bits.
 			ne.meta = e.meta &^ (bitValuePointer | bitTxn | bitFinTxn)
+			ne.notACommit = true
 			ne.UserMeta = e.UserMeta
 			ne.ExpiresAt = e.ExpiresAt
 			ne.Key = append([]byte{}, e.Key...)
